@@ -543,6 +543,15 @@ def _flatten2(case: dict, env: core.Env, cur: Any) -> None:
     if got != want:
         which = "first" if Counter(k[0] for k in got.elements()) != Counter(k[0] for k in want.elements()) else "second"
         env.witness(f"C11/flatten-two-laterals/value-cast-text/{which}-alias", f"{sql} -> {sorted(got.elements(), key=repr)!r} expected {sorted(want.elements(), key=repr)!r}")
+    # TRIM over a flatten VALUE that is a string gives the trimmed text (no JSON quotes)
+    sql3 = f"SELECT TRIM({a1}.VALUE) AS X {frm}"
+    o3 = core.run_stmt(cur, sql3)
+    if o3["ok"]:
+        env.count("cmp_cased")
+        want3 = Counter(_text_of(x).strip(" ") for x in xs for _ in ys)
+        got3 = Counter(r_[0] for r_ in o3["rows"])
+        if got3 != want3:
+            env.witness("C11/flatten-two-laterals/trim-of-value", f"{sql3} -> {sorted(got3.elements(), key=repr)!r} expected {sorted(want3.elements(), key=repr)!r}")
     s_y = next((y for y in ys if isinstance(y, str) and y), None)
     if s_y is not None:
         sql2 = f"SELECT COUNT(*) {frm}{' AND' if 'WHERE' in frm else ' WHERE'} {a2}.VALUE::VARCHAR = {qs(s_y)}"
